@@ -218,7 +218,7 @@ def judge(itype, raw, provided, outcome, value, inp, I):
         own_valid = f'raised {type(e).__name__}'
     if own_valid is not True:
         return ('value-for-text-own-validator-rejects', f'{itype}: {raw!r} -> {value!r} although valid() says {own_valid}')
-    if itype in ('float', 'int') and isinstance(value, (int, float)) and not isinstance(value, bool) and not math.isfinite(value):
+    if itype in ('float', 'int') and isinstance(value, float) and not math.isfinite(value):
         return ('non-finite-number-accepted', f'{itype}: {raw!r} -> {value!r}')
     if exp[0] == 'invalid':
         return ('invalid-text-became-value', f'{itype}: {raw!r} -> {value!r}, the text denotes no valid {itype}')
